@@ -152,3 +152,16 @@ Theorem C01_rebuild_is_code : forall steps start node acc egr fuel m0 legs ln ar
   Some (walk_step ar :: legs ++ [walk_step er]).
 Proof. exact rebuild_skel_journey. Qed.
 Print Assumptions C01_rebuild_is_code.
+
+(* tie to the source, stage 3d: Calculator::reset (resets.cpp, with resetAccessFootpaths / resetEgressFootpaths inlined) is
+   read AS IT IS NOW by tools/gen_loops.py (gen/Reset.v) and executed by the interpreter of Reset.v: which lookup feeds
+   which table and with which limit, the seeding of the per-stop tables row by row, the running minimum / maximum, the
+   emptiness flags and the order of the NO_ACCESS_* exceptions *)
+Require Import TrV.Reset.
+From TrV Require Import Proofs.ResetTie.
+Theorem C01_reset_seeding_is_code : forall d cs e m0 acc egr m',
+  ze_odtrip e = false -> rows_are e m0 acc egr -> absent_clean e m0 ->
+  run_reset GZ.gen_reset_skel e m0 = Ok m' ->
+  calc_of d (ze_p e) cs m' = mk_calc d (ze_p e) cs acc egr (ze_origin e) (ze_dest e).
+Proof. exact reset_seeding_tie. Qed.
+Print Assumptions C01_reset_seeding_is_code.
